@@ -92,6 +92,26 @@ theorem TInv.reg {s s' : State} (h : Reg s s') (ht : s'.trace = s.trace) (hf : i
         simp [this]; omega
     · intro r hr'; rw [hn] at hr'; rw [ht]; exact h2 r (by omega)
 
+theorem workSubmit_rn (s : State) (api : Api) :
+    (workSubmit s api).reqs = s.reqs ++ [({ id := s.nextReq, kind := .work api } : Req)] ∧
+    (workSubmit s api).nextReq = s.nextReq + 1 := by
+  unfold workSubmit; simp only; split
+  · split
+    · exact ⟨rfl, rfl⟩
+    · exact rn_of_rq (rq_asyncSend _ 1)
+  · exact ⟨rfl, rfl⟩
+
+theorem submit_reg (s : State) (api : Api) : Reg s (submit s api) := by
+  unfold submit; simp only
+  have hr := rn_of_rq (rq_ringInit s)
+  split
+  · split
+    · exact Or.inr ⟨.ring api, by simp only [ringSubmit, hr.1, hr.2], by simp only [ringSubmit, hr.2]⟩
+    · have := workSubmit_rn (ringInit s) api
+      exact Or.inr ⟨.work api, by rw [this.1, hr.1, hr.2], by rw [this.2, hr.2]⟩
+  · have := workSubmit_rn s api
+    exact Or.inr ⟨.work api, this.1, this.2⟩
+
 set_option linter.unusedSimpArgs false in
 theorem applyOp_reg (s : State) (o : Op) : Reg s (applyOp s o).1 := by
   have hill : Reg s (illegal s).1 := Reg.of_rq rfl
@@ -113,10 +133,11 @@ theorem applyOp_reg (s : State) (o : Op) : Reg s (applyOp s o).1 := by
             rw [(udpSendKick_rle _ _ _ _).2.2.1]; rfl
         · exact hill
       · exact hill
-    | work =>
-      refine Or.inr ⟨.work, ?_, ?_⟩
-      · simp only [ok]; unfold workSubmit; simp only; split <;> rfl
-      · simp only [ok]; unfold workSubmit; simp only; split <;> rfl
+    | work api =>
+      simp only
+      split
+      · exact hill
+      · exact submit_reg s api
     | connectBad id =>
       simp only
       split
@@ -429,6 +450,11 @@ theorem workDone_js (sc : Script) (s : State) : JS none s (workDone sc s) := by
   simp only [cnt, wcnt, cp, List.countP_nil]
   omega
 
+theorem ringDone_js (sc : Script) (cq : List Nat) (s : State) : JS none s (ringDone sc cq s) := by
+  unfold ringDone
+  refine JS.trans ?_ (workDoneLoop_js _ _ _)
+  exact JS.of_rle (s := s) (ringTake_rle s cq) (ringTake_frame (·.trace) (fun _ _ _ => rfl) s cq)
+
 theorem asyncIoLoop_js (sc : Script) (fuel : Nat) (s : State) : JS none s (asyncIoLoop sc fuel s) := by
   induction fuel generalizing s with
   | zero => exact JS.refl _
@@ -491,6 +517,9 @@ theorem dispatchLoop_js (sc : Script) (fuel : Nat) (s : State) (n : Nat) (sg : B
             · exact h0.trans (pollIo_js _ _ _ _)
             · exact h0.trans (udpIo_js _ _ _ _ _)
             · exact h0
+      · split
+        · exact (h0.trans (ringDone_js _ _ _)).trans (ih _ _ _)
+        · exact h0.trans (ih _ _ _)
 
 theorem pollLoop_js (sc : Script) (fuel : Nat) (s : State) (c : PollCtl) : JS none s (pollLoop sc fuel s c) := by
   induction fuel generalizing s c with
